@@ -1,0 +1,41 @@
+//go:build verif
+
+package rueidis
+
+import "github.com/redis/rueidis/internal/cmds"
+
+// Add-only exports for the verification harness (family bld: C18, C32, C33, C43).
+
+const (
+	VerifBldInitSlot = cmds.InitSlot
+	VerifBldNoSlot   = cmds.NoSlot
+)
+
+// VerifBldNewBuilder is cmds.NewBuilder (cluster clients pass InitSlot, all others NoSlot).
+func VerifBldNewBuilder(initSlot uint16) Builder { return cmds.NewBuilder(initSlot) }
+
+func VerifBldSlot(key string) uint16  { return cmds.Slot(key) }
+func VerifBldCrc16(key string) uint16 { return cmds.VerifBldCrc16(key) }
+
+func VerifBldCompletedCF(c Completed) uint16 { return cmds.VerifBldCompletedCF(c) }
+func VerifBldCacheableCF(c Cacheable) uint16 { return cmds.VerifBldCacheableCF(c) }
+
+// VerifBldCompletedCS returns (len(s), l, r) of the pooled command slice behind a Completed.
+func VerifBldCompletedCS(c Completed) (n int, l int32, r int32) {
+	return cmds.VerifBldCSState(cmds.CompletedCS(c))
+}
+
+func VerifBldTags() map[string]uint16 { return cmds.VerifBldTags() }
+
+func VerifBldPutCompleted(c Completed) { cmds.PutCompleted(c) }
+
+// Predefined commands of internal/cmds (cmds.go).
+func VerifBldPredefined() map[string]Completed {
+	return map[string]Completed{
+		"OptInCmd": cmds.OptInCmd, "OptInNopCmd": cmds.OptInNopCmd, "MultiCmd": cmds.MultiCmd, "ExecCmd": cmds.ExecCmd,
+		"RoleCmd": cmds.RoleCmd, "UnsubscribeCmd": cmds.UnsubscribeCmd, "PUnsubscribeCmd": cmds.PUnsubscribeCmd,
+		"SUnsubscribeCmd": cmds.SUnsubscribeCmd, "PingCmd": cmds.PingCmd, "SlotCmd": cmds.SlotCmd, "ShardsCmd": cmds.ShardsCmd,
+		"AskingCmd": cmds.AskingCmd, "SentinelSubscribe": cmds.SentinelSubscribe, "SentinelUnSubscribe": cmds.SentinelUnSubscribe,
+		"ClientTrackingOffCmd": cmds.ClientTrackingOffCmd, "DiscardCmd": cmds.DiscardCmd,
+	}
+}
